@@ -120,7 +120,13 @@ def evaluate(prop, facts_dir, tier='quick'):
     prog = Program(facts_dir)
     mod = importlib.import_module('ripcheck.rules.%s' % prop.lower())
     ctx = Ctx(prog, prop, tier)
-    mod.run(ctx)
+    try:
+        mod.run(ctx)
+    except CheckError as e:
+        # same policy as run_property: a rule that failed closed does not erase the violations the rules before it found
+        if not [o for o in ctx.obs if not o.ok]:
+            raise
+        ctx.partial_error = str(e)
     return ctx
 
 
